@@ -210,6 +210,9 @@ Proof.
   unfold check_schema in C.
   destruct (id_hash d) as [[|c0 hk]|]; try discriminate.
   destruct (mem (c0 :: hk) (t_defs t)) eqn:M; [|discriminate].
-  destruct (id_range d) as [[|c1 rk]|]; inversion C; subst; auto.
-  destruct (mem (c1 :: rk) (t_defs t)) eqn:M2; inversion C; subst; auto.
+  destruct (id_range d) as [[|c1 rk]|].
+  - destruct (key_typed _ _); inversion C; subst; auto.
+  - destruct (mem (c1 :: rk) (t_defs t)) eqn:M2; [|discriminate].
+    destruct (key_typed _ _ && key_typed _ _); inversion C; subst; auto.
+  - destruct (key_typed _ _); inversion C; subst; auto.
 Qed.
